@@ -454,16 +454,16 @@ def judge_rt(r, ver, flags):
                 return (d["set"], d["eff"], d["forced"], inf)
             la, lb = [norm(l, True) for l in la], [norm(l, False) for l in lb]
         if tag in ("DI", "MA"):
-            def normn(l):
+            def normn(l, fa):
                 d = kv(l)
                 nm = hexbytes(d["name"])
+                if fa:
+                    nm = filt(v, nm)      # distances / memattr names go through the export filter since /repo 3735d4f
                 return (nm,) + tuple(sorted((k, x) for k, x in d.items() if k != "name"))
-            la, lb = [normn(l) for l in la], [normn(l) for l in lb]
-        if la != lb and tag in ("DI", "MA") and len(la) == len(lb):
-            # distances / memattr names are written unfiltered by the current code; accept the filtered form as well
-            la2 = [(G.safe_filter(x[0]),) + x[1:] for x in la]
-            if la2 == lb:
-                la = lb
+            la, lb = [normn(l, True) for l in la], [normn(l, False) for l in lb]
+            if tag == "DI":
+                # the export writes homogeneous matrices before heterogeneous ones: the order of the list is not part of the statement
+                la, lb = sorted(la, key=repr), sorted(lb, key=repr)
         if la != lb:
             cls = "count" if len(la) != len(lb) else "value"
             first = next((i for i, (x, y) in enumerate(zip(la, lb)) if x != y), min(len(la), len(lb)))
